@@ -512,12 +512,12 @@ Section WithOracles.
     | _ => Ok [uw (if truthy v then s_ "True" else s_ "False")]
     end.
 
-  (* number_converters_base.as_words: no bounds check here (as the code) *)
+  (* number_converters_base.as_words: the value is checked against value_min/value_max before it is written *)
   Definition number_conv_as_words (isint:bool) (c:nconv) (v:pyv) : res (list word) :=
     match v with
     | PNone => if allow_none c then Ok none_w else UErr (s_ "CannotBeNone") [] 0
     | PAuto => Ok auto_w
-    | PNum n => do s <- value_as_str isint n; Ok [uw s]
+    | PNum n => do _ <- check_value isint (vmin c) (vmax c) n None; do s <- value_as_str isint n; Ok [uw s]
     | PList _ => Crash (s_ "TypeError")               (* "%d" % [..] *)
     end.
 
